@@ -1289,3 +1289,143 @@ Proof.
 Qed.
 
 End InitProofs.
+
+(* ================================================================== a freshly constructed wrapper *)
+Section FreshProofs.
+Variable I : Type.
+Variable eat : I -> bytes -> I * option exn.
+Variable finish : I -> I.
+Variable complete : I -> bool.
+Variable fmatch : I -> bool.
+Variable sh : pc_shape.
+Hypothesis Hsh : shape_okb sh = true.
+
+(* InspectWrapper(source, expected_format=n, allowed_formats=allowed) over a table with
+   distinct names in which n is present and allowed: the exact-abort theorem applies, with
+   the fresh instance i0 of the expected format *)
+Theorem expected_abort_exact_fresh (factory : list (str * I)) allowed n i0 cs :
+  NoDup (map fst factory) -> In (n, i0) factory -> allowed_key allowed n = true ->
+  exists w' tr,
+    w_run_stop I eat finish complete fmatch sh (mk_wrapper I factory (Some n) allowed) (map InChunk cs) =
+    match first_abort I eat complete fmatch i0 cs with
+    | Some (j, a) => (w', tr, firstn j cs, Some (abort_exn a, Some (nth j cs [])), map InChunk (skipn (S j) cs))
+    | None => (w', tr, cs, None, [])
+    end.
+Proof.
+  intros Hnd Hin Hal.
+  set (s := {| s_name := n; s_insp := i0; s_err := false |}).
+  assert (Hs : In s (mk_slots I factory allowed)).
+  { unfold mk_slots. apply in_map_iff. exists (n, i0). split; [reflexivity|]. apply filter_In. auto. }
+  assert (Hnd' : NoDup (map (@s_name I) (mk_slots I factory allowed))).
+  { rewrite mk_slots_names. apply NoDup_filter. exact Hnd. }
+  destruct (unique_name_split I _ s n Hnd' Hs eq_refl) as (pre & post & Hsplit & Hpre & Hpost).
+  exact (expected_abort_exact I eat finish complete fmatch sh Hsh (mk_wrapper I factory (Some n) allowed)
+           n pre s post cs eq_refl Hsplit eq_refl eq_refl Hpre Hpost).
+Qed.
+
+(* expected_format=None: every chunk of every call sequence is delivered *)
+Theorem no_expectation_no_exception (factory : list (str * I)) allowed inps w' recs :
+  w_run I eat finish complete fmatch sh (mk_wrapper I factory None allowed) inps = (w', recs) ->
+  Forall (fun r => forall c, sr_in r = InChunk c -> sr_out r = OutChunk c) recs.
+Proof.
+  apply (no_expected_inspector_no_exception I eat finish complete fmatch sh Hsh). intros s _. reflexivity.
+Qed.
+
+End FreshProofs.
+
+(* ================================================================== detect_file_format *)
+Section DetectProofs.
+Variable I : Type.
+Variable eat : I -> bytes -> I * option exn.
+Variable finish : I -> I.
+Variable complete : I -> bool.
+Variable fmatch : I -> bool.
+Variable sh : pc_shape.
+Hypothesis Hsh : shape_okb sh = true.
+Variable raw_nr raw_r : str.
+
+Notation format_name := (format_name I complete fmatch raw_nr raw_r).
+Notation detect_loop := (detect_loop I eat finish complete fmatch sh raw_nr raw_r).
+Notation detect_file_format := (detect_file_format I eat finish complete fmatch sh raw_nr raw_r).
+
+Lemma format_name_cases w :
+  (exists nm, format_name w = Ok (Some nm)) \/ format_name w = Exn ImageFormatError \/
+  (format_name w = Ok None /\ decided I complete raw_nr w = false).
+Proof.
+  unfold Wrap.format_name. rewrite format_spec. destruct (decided I complete raw_nr w); [|auto].
+  destruct (matches I fmatch raw_nr w) as [|m [|m2 ms]]; eauto.
+  destruct (filter (is_raw I raw_r) (w_slots w)) as [|r [|r2 rs]]; eauto.
+Qed.
+
+Lemma f_chunk_nil_eof s cs : (0 < cs)%Z -> f_chunk s cs = [] -> blen (f_data s) <= f_pos s.
+Proof.
+  intros Hcs H. apply (f_equal blen) in H. unfold f_chunk in H.
+  destruct (cs <? 0)%Z eqn:Hn; [lia|]. rewrite blen_btake, blen_bskip in H. cbn in H. lia.
+Qed.
+
+Lemma f_chunk_len s cs : (0 < cs)%Z -> blen (f_chunk s cs) <= blen (f_data s) - f_pos s.
+Proof.
+  intros Hcs. unfold f_chunk. destruct (cs <? 0)%Z; [rewrite blen_bskip; lia|].
+  rewrite blen_btake, blen_bskip. lia.
+Qed.
+
+(* the read loop with expected_format=None on an open file: reads never raise; the only
+   exception is ImageFormatError from wrapper.format; leaving the loop without a result
+   means EOF was reached (the fuel S (bytes left) is never exhausted) *)
+Lemma detect_loop_spec : forall fuel cs w s, w_expected w = None -> f_closed s = false ->
+  forall w' s' tr r, detect_loop fuel cs w s = (w', s', tr, r) ->
+  w_expected w' = None /\ f_closed s' = false /\ f_data s' = f_data s /\ f_pos s <= f_pos s' /\
+  match r with
+  | Some (Exn e) => e = ImageFormatError
+  | Some (Ok None) => False
+  | Some (Ok (Some _)) => True
+  | None => (0 < cs)%Z -> (N.to_nat (blen (f_data s) - f_pos s) < fuel)%nat -> blen (f_data s) <= f_pos s'
+  end.
+Proof.
+  induction fuel as [|k IH]; intros cs w s He Hc w' s' tr r; cbn [Wrap.detect_loop].
+  - intros H; inversion H; subst. repeat split; auto; try lia.
+  - rewrite (w_read_open I eat finish complete fmatch sh) by assumption. cbn zeta.
+    destruct (Wrap.w_step I eat finish complete fmatch sh w (InChunk (f_chunk s cs))) as [[w1 tr1] o] eqn:Hs.
+    assert (Ho : o = OutChunk (f_chunk s cs)).
+    { eapply (w_step_no_expected I eat finish complete fmatch sh Hsh); eauto. intros x _. now rewrite He. }
+    pose proof (w_step_expected I eat finish complete fmatch sh Hsh _ _ _ _ _ Hs) as He1. rewrite He in He1.
+    subst o. destruct (f_chunk s cs) as [|x t] eqn:Hch.
+    + intros H; inversion H; subst. cbn [f_pos f_data f_closed]. repeat split; auto; try (cbn; lia).
+      intros Hcs _. cbn [blen length]. pose proof (f_chunk_nil_eof s cs Hcs Hch). cbn. lia.
+    + destruct (format_name_cases w1) as [(nm & Hf)|[Hf|(Hf & _)]]; rewrite Hf.
+      * intros H; inversion H; subst. cbn [f_pos f_data f_closed]. repeat split; auto. lia.
+      * intros H; inversion H; subst. cbn [f_pos f_data f_closed]. repeat split; auto. lia.
+      * match goal with |- context [Wrap.detect_loop ?a1 ?a2 ?a3 ?a4 ?a5 ?a6 ?a7 ?a8 ?kk ?cc ?ww ?ss] =>
+          destruct (Wrap.detect_loop a1 a2 a3 a4 a5 a6 a7 a8 kk cc ww ss) as [[[w2 s2] tr2] r2] eqn:Hr end.
+        intros H; inversion H; subst.
+        apply IH in Hr; [|assumption|reflexivity]. cbn [f_pos f_data f_closed] in Hr.
+        destruct Hr as (H1 & H2 & H3 & H4 & H5). repeat split; auto; try lia.
+        destruct r as [[[nm|]|e]|]; auto.
+        intros Hcs Hfuel. apply H5; [assumption|].
+        pose proof (f_chunk_len s cs Hcs) as Hl. rewrite Hch in Hl.
+        assert (1 <= blen (x :: t)) by (rewrite blen_cons; lia). lia.
+Qed.
+
+(* detect_file_format_total: on every file content the function returns the NAME of an
+   inspector or raises ImageFormatError; never None, never another exception; the file is
+   closed and every inspector finished afterwards *)
+Theorem detect_file_format_total cs (factory : list (str * I)) data : (0 < cs)%Z ->
+  let '(w, s, tr, r) := detect_file_format cs factory data in
+  ((exists nm, r = Ok (Some nm)) \/ r = Exn ImageFormatError) /\
+  f_closed s = true /\ w_finished w = true /\ f_data s = data.
+Proof.
+  intros Hcs. unfold Wrap.detect_file_format.
+  match goal with |- context [Wrap.detect_loop ?a1 ?a2 ?a3 ?a4 ?a5 ?a6 ?a7 ?a8 ?kk ?cc ?ww ?ss] =>
+    destruct (Wrap.detect_loop a1 a2 a3 a4 a5 a6 a7 a8 kk cc ww ss) as [[[w1 s1] tr1] r1] eqn:Hr end.
+  apply detect_loop_spec in Hr; [|reflexivity|reflexivity]. cbn [f_pos f_data f_closed] in Hr.
+  destruct Hr as (H1 & H2 & H3 & H4 & H5). cbn [w_close_f].
+  destruct r1 as [[[nm|]|e]|]; cbn [f_close f_closed f_data w_finished Wrap.finish_all].
+  - repeat split; eauto.
+  - contradiction.
+  - subst e. repeat split; auto.
+  - repeat split; auto.
+    destruct (format_name_cases (Wrap.finish_all I finish w1)) as [(nm & Hf)|[Hf|(_ & Hd)]]; eauto.
+    unfold decided in Hd. cbn [w_finished Wrap.finish_all] in Hd. rewrite orb_true_r in Hd. discriminate.
+Qed.
+
+End DetectProofs.
